@@ -5,6 +5,7 @@ common.setup_impl()
 from harness.corr import C03 as H
 rng = random.Random(1)
 cnt = collections.Counter(); ex = {}
+t=time.time(); H.sg_warm(); print('warm', time.time()-t)
 # sg round trips
 cases = [{"S": H.gen_sg(rng, H.SG_SCHEMAS[k % len(H.SG_SCHEMAS)]), "fmt": 2 + k % 2} for k in range(80)]
 t = time.time(); res = common.pmap(H.impl_sg_roundtrip, cases, chunksize=4); print("sg time", time.time() - t)
